@@ -269,6 +269,10 @@ func (this *RippleExtraInfo) Deserialization(source *common.ZeroCopySource) erro
 	if eof {
 		return fmt.Errorf("RippleExtraInfoParam deserialize length of pk array error")
 	}
+	// every public key occupies at least one byte (its length prefix): never allocate for more than the input can hold
+	if l > source.Len() {
+		return fmt.Errorf("RippleExtraInfoParam deserialize: pk count %d exceeds remaining data", l)
+	}
 	pks := make([][]byte, l)
 	for i := uint64(0); i < l; i++ {
 		pks[i], eof = source.NextVarBytes()
